@@ -815,7 +815,10 @@ class DictIterModel(Model):
                 stop()
             key = KSEQ(dom, K())
             kv = VU(key)
-            vv = wrap(d.vshape, d.val[key])
+            if d.vshape.startswith("list:"):
+                vv = VList(d.val[key], d.vlen[key], d.vshape[5:])
+            else:
+                vv = wrap(d.vshape, d.val[key])
             if srcv_.name == "keys":
                 return kv
             if srcv_.name == "values":
@@ -1457,3 +1460,81 @@ class SetModel(Model):
 
 
 ALL = ALL + [SetModel]
+
+
+class DictCompModel(Model):
+    """{k: E(k, v) for k, v in d.items()}: same key set; value determined
+    pointwise.  E may be a one-element list literal (dict of lists).
+    set(d): the key set.  Comparison of key sets."""
+
+    def comprehension(self, st, node, kind):
+        eng = self.eng
+        if kind != "dict" or len(node.generators) != 1:
+            return None
+        g = node.generators[0]
+        if g.ifs or not isinstance(g.target, ast.Tuple) or \
+                len(g.target.elts) != 2 or not all(
+                    isinstance(e, ast.Name) for e in g.target.elts):
+            return None
+        if not (isinstance(g.iter, ast.Call) and isinstance(
+                g.iter.func, ast.Attribute) and g.iter.func.attr == "items"):
+            return None
+        kname, vname = g.target.elts[0].id, g.target.elts[1].id
+        if not (isinstance(node.key, ast.Name) and node.key.id == kname):
+            return None
+        src = eng.eval(st, g.iter.func.value)
+        if not isinstance(src, VDict) or src.val is None or \
+                src.vshape.startswith("list:"):
+            return None
+        x = z3.Const("x!dc", U)
+        saved = st.locals
+        st.locals = dict(saved)
+        st.locals[kname] = VU(x)
+        st.locals[vname] = wrap(src.vshape, src.val[x])
+        st.spec += 1
+        try:
+            body = eng.eval(st, node.value)
+        finally:
+            st.spec -= 1
+            st.locals = saved
+        if isinstance(body, VList):
+            n = z3.simplify(body.n)
+            if not (z3.is_int_value(n) and n.as_long() == 1):
+                return None
+            es = body.eshape
+            d = eng.fresh_dict(st, "list:" + es, "dictcomp")
+            st.assume(z3.ForAll([x], d.dom[x] == src.dom[x]))
+            st.assume(z3.ForAll([x], z3.Implies(src.dom[x], z3.And(
+                d.vlen[x] == 1, d.val[x][0] == z3.simplify(body.arr[0])))))
+            return d
+        bt = eng.coerce(st, body, "U")
+        d = eng.fresh_dict(st, "U", "dictcomp")
+        st.assume(z3.ForAll([x], d.dom[x] == src.dom[x]))
+        st.assume(z3.ForAll([x], z3.Implies(src.dom[x], d.val[x] == bt)))
+        return d
+
+    def call_global(self, st, name, node):
+        if name == "set" and len(node.args) == 1:
+            v = self.eng.eval(st, node.args[0])
+            if isinstance(v, VDict):
+                s = VDict(v.dom, st.fresh("set_val", z3.ArraySort(U, U)), "U")
+                s.is_set = True
+                return s
+        return NotImplemented
+
+    def compare(self, st, op, a, b, line):
+        if isinstance(op, (ast.Eq, ast.NotEq)) and isinstance(a, VDict) and \
+                isinstance(b, VDict) and getattr(a, "is_set", False) and \
+                getattr(b, "is_set", False):
+            x = z3.Const("x!se", U)
+            e = z3.ForAll([x], a.dom[x] == b.dom[x])
+            return e if isinstance(op, ast.Eq) else z3.Not(e)
+        return None
+
+    def global_name(self, st, name, imports):
+        if name == "object":
+            return VU(self.eng.strconst("<class object>"))
+        return None
+
+
+ALL = [DictCompModel] + ALL
